@@ -538,11 +538,25 @@ class Prover:
         l, u = self.lb(t, facts), self.ub(t, facts)
         return l if (l is not None and l == u) else None
 
-    def decide(self, c, facts):
+    def decide(self, c, facts, _depth=0):
         """truth of a boolean term under facts, with the order reasoning above: True / False / None (unknown)"""
         tv = self.an.truth(facts, c)
         if tv is not None:
             return tv
+        if c.has_tree() and _depth < 5:
+            # the term mentions a value described by cases (the case analysis of a dissolved helper): decided when every case that the
+            # facts leave possible gives the same answer
+            r = self._decide_by_cases(c, facts, _depth)
+            if r is not None:
+                return r
+        if c.op == "bin" and c.args[0] in ("Eq", "Ne") and self._is_bool(c.args[1]) and self._is_bool(c.args[2]):
+            (xa, pa), (xb, pb) = self._bool_atom(c.args[1]), self._bool_atom(c.args[2])
+            if xa is xb:            # the same condition written twice (possibly once negated)
+                return (pa == pb) == (c.args[0] == "Eq")
+            ta, tb = self.decide(c.args[1], facts, _depth + 1), self.decide(c.args[2], facts, _depth + 1)
+            if ta is not None and tb is not None:
+                return (ta == tb) == (c.args[0] == "Eq")
+            return None
         if c.op == "un" and c.args[0] == "Not":
             r = self.decide(c.args[1], facts)
             return None if r is None else not r
@@ -562,6 +576,62 @@ class Prover:
             if same or diff:
                 return (o == "Eq") == bool(same)
         return None
+
+    @staticmethod
+    def _bool_atom(t):
+        """(atom, polarity): t is atom when polarity else its negation (Not / Ne / Ge / Gt folded into the polarity)"""
+        pol = True
+        for _ in range(8):
+            if t.op == "un" and t.args[0] == "Not":
+                t, pol = t.args[1], not pol
+            elif t.op == "bin" and t.args[0] in ("Ne", "Ge", "Gt"):
+                t, pol = Term("bin", {"Ne": "Eq", "Ge": "Lt", "Gt": "Le"}[t.args[0]], *t.args[1:]), not pol
+            else:
+                break
+        return t, pol
+
+    @staticmethod
+    def _is_bool(t):
+        return (t.op == "bin" and t.args[0] in ("Lt", "Le", "Gt", "Ge", "Eq", "Ne")) or (t.op == "un" and t.args[0] == "Not") \
+            or (t.op == "const" and isinstance(t.args[1], bool))
+
+    def _decide_by_cases(self, c, facts, depth):
+        from .terms import rebuild
+        node = None
+        for x in c.subterms():
+            if x.op in ("ite", "mterm") and not x.args[0].has_tree():
+                node = x
+                break
+        if node is None:
+            return None
+        an = self.an
+        cases = []
+        if node.op == "ite":
+            tv = self.decide(node.args[0], facts, depth + 1)
+            for truth, val in ((True, node.args[1]), (False, node.args[2])):
+                if tv is None or tv == truth:
+                    cases.append((an.assume_bool(facts, node.args[0], truth), val))
+        else:
+            for v, val in node.args[1]:
+                k = an.variant_known(node.args[0], v, facts)
+                if k is False:
+                    continue
+                f = an.var_fact(node.args[0], v)
+                cases.append((frozenset(facts) | ({f} if isinstance(f, tuple) else set()), val))
+        res = None
+        n = 0
+        for fs, val in cases:
+            if val.op == "never":
+                continue
+            c2 = rebuild(c, {node: val})
+            if any(y.op == "never" for y in c2.subterms()):
+                continue        # a projection the case does not have: the case cannot be the one the facts describe
+            r = self.decide(c2, fs, depth + 1)
+            if r is None or (res is not None and r != res):
+                return None
+            res = r
+            n += 1
+        return res if n else None
 
     def _distinct(self, a, b, facts):
         for f in facts:
